@@ -238,6 +238,10 @@ def main():
         os.makedirs(os.path.join(HERE, 'evidence'), exist_ok=True)
         with open(os.path.join(HERE, 'evidence', f'{pid}.json'), 'w') as f:
             json.dump(ev, f, indent=1, default=str)
+        if a.tier == 'thorough':      # a copy that the next quick run does not overwrite
+            os.makedirs(os.path.join(HERE, 'evidence_thorough'), exist_ok=True)
+            with open(os.path.join(HERE, 'evidence_thorough', f'{pid}.json'), 'w') as f:
+                json.dump(ev, f, indent=1, default=str)
     print(f'{pid} tier={a.tier}: jobs={len(specs)} paths={paths} obligations={obligations} discharged={discharged} '
           f'(by rewriting {trivial}) queries={queries} solver={solver_s:.1f}s wall={wall:.1f}s '
           f'violations={reported} known={len(seen_known)} inconclusive={len(inconclusive)}')
